@@ -2655,6 +2655,9 @@ static iwrc _jbl_target_apply_patch(struct jbl_node *target, const struct jbl_pa
             child->prev = value;
             if (child == parent->child) {
               parent->child = value;
+              if (!value->prev) { // `child` was the only item: the head's prev is the last item (see _jbn_add_item)
+                value->prev = child;
+              }
             } else {
               value->prev->next = value;
             }
